@@ -4,7 +4,7 @@ import random
 INTS = [0, 1, -1, 2, 3, 7, -7, 10, 2 ** 31, 2 ** 53, 2 ** 53 + 1, 2 ** 63 - 1, -(2 ** 63 - 1), 4, 6, 12]
 FLOATS = [0.0, -0.0, 1.0, 2.0, 2.5, 0.1, 1e-8, 1e15, 2.0 ** 53, 5e-324, -1.5, 3.0, 1e-9, 0.5]
 STRS = ["", "a", "abc", "b<", "1", "2.5", " 3 ", "1_0", "true", "TRUE", "False", "path", "\\path",
-        "%d", "%z", "100%", "`x`", "é", "b", "ab", "key", "x y", "-7", "3", "A", "%s", "%(k)s", "%"]
+        "%d", "%z", "100%", "`x`", "é", "b", "ab", "key", "x y", "-7", "3", "A", "%s", "%(k)s", "%", "%c"]
 KEYSTRS = ["a", "b", "c", "abc", "", "1", "key", "é", "path", "A", "a  b", " a", "b\n", "{x}", "${HOME}"]
 TYPES = [int, float, str, list, dict, bool]
 
